@@ -10,8 +10,9 @@ namespace GuppyVerif.Unitary
 /-- **C24 (main)**: for every way of obtaining the context flags (annotation or `with`
     block), every flag set and every block — any nesting of calls inside arguments, any
     nesting of `if` / `while` / `with` — the block is rejected **iff** some expression position
-    *anywhere* in it (statement, assigned value, `if` / `while` condition, control argument,
-    at any depth) contains a call (itself at any argument depth) that passes a
+    *anywhere* in it (statement, assigned value, assignment target, `if` / `while` condition,
+    control argument, at any depth) contains a call (itself at any argument depth, or inside an
+    index expression of a subscripted place at any depth) that passes a
     qubit-containing argument to a callee whose flags do not include every flag required at
     that position — the context's flags plus those of every enclosing `with` block —
     (barrier / state_result nodes are opaque) or, where dagger is required, a subscripted
@@ -131,30 +132,42 @@ theorem missing_has (F g : Flags) (k : FlagKind) :
 
 /-- D7a: a call in an `if` condition, dagger context, callee without flags: rejected. -/
 example : check .fn ⟨false, true, false⟩
-    (.cons (.ite (.call Flags.noFlags (.cons (.place true false) .nil) false) .nil .nil) .nil)
+    (.cons (.ite (.call Flags.noFlags (.cons (.place true .nil) .nil) false) .nil .nil) .nil)
     = .bb [.call ⟨false, true, false⟩] := by decide
 
 /-- D7b: `g(q, f(r))` with `g` unitary and `f` without flags, control context: rejected
     because of the nested call in the *second* argument. -/
 example : check .fn ⟨true, false, false⟩
     (.cons (.expr (.call Flags.unitary
-      (.cons (.place true false)
-        (.cons (.call Flags.noFlags (.cons (.place true false) .nil) false) .nil)) false)) .nil)
+      (.cons (.place true .nil)
+        (.cons (.call Flags.noFlags (.cons (.place true .nil) .nil) false) .nil)) false)) .nil)
     = .bb [.call ⟨true, false, false⟩] := by decide
 
 /-- an accepted block: callee has all required flags, classical call to a flagless callee,
     barrier on a subscripted qubit (opaque) -/
 example : check .withBlock ⟨true, true, false⟩
-    (.cons (.expr (.call ⟨true, true, false⟩ (.cons (.place true false) .nil) false))
+    (.cons (.expr (.call ⟨true, true, false⟩ (.cons (.place true .nil) .nil) false))
       (.cons (.expr (.call Flags.noFlags (.cons .leaf .nil) false))
-        (.cons (.expr (.exempt (.cons (.place true true) .nil))) .nil))) = .ok := by decide
+        (.cons (.expr (.exempt (.cons (.place true (.cons .leaf .nil)) .nil))) .nil))) = .ok := by decide
 
 /-- nested: `@guppy(dagger=True)` function, `with control(c): if f(q): pass` with `f` control-only:
     rejected, the call in the nested condition lacks the dagger flag of the outer context -/
 example : check .fn ⟨false, true, false⟩
-    (.cons (.withBlock (.cons (.place true false) .nil) ⟨true, false, false⟩
-      (.cons (.ite (.call ⟨true, false, false⟩ (.cons (.place true false) .nil) false) .nil .nil) .nil)) .nil)
+    (.cons (.withBlock (.cons (.place true .nil) .nil) ⟨true, false, false⟩
+      (.cons (.ite (.call ⟨true, false, false⟩ (.cons (.place true .nil) .nil) false) .nil .nil) .nil)) .nil)
     = .bb [.call ⟨false, true, false⟩] := by decide
+
+/-- audit finding F2: `unit(qs[nonunit(q)])` under `@guppy(control=True)` — the non-unitary call
+    sits in the index expression of a subscripted place passed as argument: rejected -/
+example : check .fn ⟨true, false, false⟩
+    (.cons (.expr (.call Flags.unitary
+      (.cons (.place true (.cons (.call Flags.noFlags (.cons (.place true .nil) .nil) false) .nil)) .nil) false)) .nil)
+    = .bb [.call ⟨true, false, false⟩] := by decide
+
+/-- … and in the index of an assignment target: `xs[nonunit(q)] = 1` -/
+example : check .fn ⟨true, false, false⟩
+    (.cons (.assign (.place false (.cons (.call Flags.noFlags (.cons (.place true .nil) .nil) false) .nil)) (some .leaf)) .nil)
+    = .bb [.call ⟨true, false, false⟩] := by decide
 
 /-- loop under dagger -/
 example : check .fn ⟨false, true, false⟩ (.cons (.while .leaf .nil) .nil) = .pre .loop := by decide
